@@ -413,8 +413,10 @@ fn case_strategy() -> impl Strategy<Value = Case> {
         let nd = dbs2.len();
         prop_oneof![
             12 => (moderate_literal(), suffix_for(q)).prop_map(move |(lit, suffix)| Case::Plain { q, single, lit, suffix }),
-            3 => (moderate_literal(), 0usize..n, prop_oneof![Just("PK"), Just("PP"), Just("RMS"), Just("pk"), Just("Rms"), Just(""), Just("P"), Just("RM")], 0u8..3, any::<u16>())
-                .prop_map(move |(lit, i, spec, mode, mask)| Case::Amp { q, single, lit, suffix: recase(defined[i], mode, mask), spec: spec.to_string() }),
+            3 => (moderate_literal(), 0usize..n + 1, prop_oneof![Just("PK"), Just("PP"), Just("RMS"), Just("pk"), Just("Rms"), Just(""), Just("P"), Just("RM")], 0u8..3, any::<u16>())
+                // index n = no unit at all in front of the specifier ("1.5 PK"): not a defined suffix
+                .prop_filter("needs some suffix", move |(_, i, spec, _, _)| *i < n || !spec.is_empty())
+                .prop_map(move |(lit, i, spec, mode, mask)| Case::Amp { q, single, lit, suffix: if i < n { recase(defined[i], mode, mask) } else { String::new() }, spec: spec.to_string() }),
             if has_db { 3 } else { 0 } => (moderate_literal(), prop_oneof![
                 1 => Just(None),
                 3 => (0usize..nd, 0u8..3, any::<u16>()).prop_map({ let dbs2 = dbs2.clone(); move |(i, mode, mask)| Some(recase(dbs2[i], mode, mask)) }),
